@@ -91,11 +91,11 @@ PROPS = {
              "victim connection while a bystander must be served within 1.5 s and the process must stay alive",
              partial="stack/heap limits of the Go runtime and loops inside the ~120 handlers are not modelled as Panic/Diverge sites; the handler side is covered by the hostile-input stream only",
              assumptions=["a malformed line wedges only the connection that sent it (the emulator treats 'malformed' as 'incomplete'); this is recorded in PropC13.v as C13_malformed_head_wedges and is outside 'well-formed command'"]),
-    "C02": P(["PropC02"], ["C02"],
+    "C02": P(["PropC02", "PropC02Lcs"], ["C02"],
              "string/counter commands: theorems on the model (overflow test = mathematical overflow, MSETNX all-or-nothing, GETRANGE/SETRANGE "
              "specifications, SET option table, decimal text round trip, errors leave the db unchanged) + correspondence of every reply and of the "
              "visible state after random histories over the family",
-             findings=["getrange-negative-end-clamp", "set-option-order"], assumptions=SEQ_ASSUME),
+             findings=["getrange-negative-end-clamp", "set-option-order", "lcs-repeated-option"], assumptions=SEQ_ASSUME),
     "C03": P(["PropC03"], ["C03"],
              "list commands: theorems on the model (index normalisation vs a Redis-style spec, push/pop equations, LMOVE same-key rotation and "
              "conservation, LREM/LINSERT/LPOS specifications, never-empty, errors inert) + correspondence over random histories",
@@ -109,10 +109,12 @@ PROPS = {
              "set commands: theorems on the model (SINTER/SUNION/SDIFF are the mathematical operations for any number of operands, operands "
              "untouched, STORE replaces the destination even when it is an operand, SADD/SREM/SMOVE equations) + correspondence",
              assumptions=SEQ_ASSUME),
-    "C06": P(["PropC06"], ["C06"],
+    "C06": P(["PropC06", "PropC06Sort"], ["C06"],
              "keyspace discipline over the whole command table: failed commands change nothing, well-formedness (no empty aggregates, unique "
              "keys/fields/members, fresh versions) preserved by every command, WRONGTYPE, RENAME/COPY carry value and deadline + correspondence "
-             "over mixed-family histories", assumptions=SEQ_ASSUME),
+             "over mixed-family histories; per-run obligation over the command table regenerated from cmdDispatcher.go: every command "
+             "the emulator serves is in the model's tables (or on the audited not-modelled list)",
+             generated=["CmdFacts", "GenCmdCheck"], assumptions=SEQ_ASSUME),
     "C07": P(["PropC07"], ["C07", "C06"],
              "expiry: expired entries are invisible to every command of the table (reply and successor state equal those on the purged db), "
              "TTL reporting and per-command deadline rules + correspondence with keys in each lifetime phase (real clock, margins)",
